@@ -422,11 +422,22 @@ fn run_leaf(setup: &[Setup], actors: &[Vec<Op>], choose: &mut dyn FnMut(usize, u
     let n_ops: Vec<usize> = actors.iter().map(|o| o.len()).collect();
     let ops_done: Arc<std::sync::Mutex<Vec<usize>>> = Arc::new(std::sync::Mutex::new(vec![0; actors.len()]));
     let ops_done2 = ops_done.clone();
+    // latched: once an append was seen at the log writer without its seq mutex it stays a decision point
+    // until it is granted (another actor taking the mutex meanwhile must not make it run at once)
+    let early: Arc<std::sync::Mutex<Vec<bool>>> = Arc::new(std::sync::Mutex::new(vec![false; actors.len()]));
+    let early2 = early.clone();
     let is_coarse = move |a: usize, p: &str| -> bool {
         if p == "cont.h_opdone" {
             return ops_done2.lock().unwrap().get(a).map(|d| d + 1 < n_ops[a]).unwrap_or(true);
         }
-        coarse(p) || (p == "log.before_lock" && holding3.lock().unwrap().get(a).cloned().unwrap_or(false) && store_p.verif_seq_free())
+        if p == "log.before_lock" && holding3.lock().unwrap().get(a).cloned().unwrap_or(false) {
+            let mut e = early2.lock().unwrap();
+            if e[a] || store_p.verif_seq_free() {
+                e[a] = true;
+                return true;
+            }
+        }
+        coarse(p)
     };
     let trace = sched.run(
         |en| {
@@ -441,6 +452,9 @@ fn run_leaf(setup: &[Setup], actors: &[Vec<Op>], choose: &mut dyn FnMut(usize, u
             let granted = |a: usize, p: &str| {
                 if p == "cont.h_opdone" {
                     ops_done.lock().unwrap()[a] += 1;
+                }
+                if p == "log.before_lock" {
+                    early.lock().unwrap()[a] = false;
                 }
             };
             if let Some(s) = sticky {
